@@ -272,6 +272,27 @@ func main() {
 	}
 	writeLines(filepath.Join(*out, "cases_c04.txt"), c04cases)
 	writeLines(filepath.Join(*out, "cases_c14.txt"), c14cases)
+	// payload routing (httpRequestBody / initAttr vs Routing.v): one case per endpoint of every built design
+	var rcases, rdesc []string
+	for _, it := range items {
+		if it.bu == nil || it.bu.Dropped || it.ex == nil {
+			continue
+		}
+		var names []string
+		for n := range it.ex.endpoints {
+			names = append(names, n)
+		}
+		sort.Strings(names)
+		for _, n := range names {
+			if t := it.ex.endpoints[n].Routing; t != "" {
+				rcases = append(rcases, fmt.Sprintf("(%d%%N, %s", len(rcases), t))
+				rdesc = append(rdesc, it.bu.Key+" "+n)
+			}
+		}
+	}
+	writeLines(filepath.Join(*out, "cases_routing.txt"), rcases)
+	writeLines(filepath.Join(*out, "cases_routing_desc.txt"), rdesc)
+	res.Extra["routing_cases"] = fmt.Sprint(len(rcases))
 	writeHeader(filepath.Join(*out, "cases_header.v"), items)
 	if err := res.Write(filepath.Join(*out, "result.json")); err != nil {
 		panic(err)
